@@ -137,6 +137,13 @@ func (s *httpsService) Handle(ctx context.Context, conn net.Conn) error {
 
 	tlsConn := tls.Server(conn, &tls.Config{
 		Certificates: []tls.Certificate{},
+		// fingerprint every hello that parses, also those the handshake rejects
+		// before a certificate is selected (e.g. an SSL 3.0 legacy version)
+		GetConfigForClient: func(hello *tls.ClientHelloInfo) (*tls.Config, error) {
+			ja3Digest = hello.JA3Digest()
+			serverName = hello.ServerName
+			return nil, nil
+		},
 		GetCertificate: func(hello *tls.ClientHelloInfo) (*tls.Certificate, error) {
 			ja3Digest = hello.JA3Digest()
 			serverName = hello.ServerName
